@@ -30,11 +30,11 @@ theorem uuid_key_agrees : Generated.C15Schema.uuidKey = uuidKey := by decide
 
 /-! ### describe_faithful -/
 
-/- Full statement (FALSE on the model and on the code, see the two witnesses below):
+/- Full statement (FALSE on the model and on the code, see the witness below):
      ∀ f : File, factsOf (describe f) = forget f -/
 
-/-- **describe_faithful (partial)**: for every file whose include base names, namespace languages and
-annotation keys are pairwise distinct, the descriptor states exactly the facts the IDL states — names, field
+/-- **describe_faithful (partial)**: for every file whose include base names and annotation keys are pairwise
+distinct (namespace languages may repeat: the first statement counts, as for the backends), the descriptor states exactly the facts the IDL states — names, field
 ids, requiredness, type expressions with key/value types, defaults and constant values, enum numbers,
 annotations with all values, comments, base service, oneway, includes, namespaces. Unbounded in the number
 and nesting of definitions. -/
@@ -83,9 +83,10 @@ def wNamespace : File :=
   { filename := [109], includes := [], namespaces := [⟨[103, 111], [97]⟩, ⟨[103, 111], [98]⟩],
     typedefs := [], consts := [], enums := [], structs := [], unions := [], exceptions := [], services := [] }
 
-/-- **negative witness 2**: the `Namespaces` map is keyed by language, the first statement is lost -/
-theorem describe_loses_namespace :
-    (forget wNamespace).namespaces [103, 111] = some [97] ∧ (factsOf (describe wNamespace)).namespaces [103, 111] = some [98] := by
+/-- **regression item** (was negative witness 2 before the fix `keep the first namespace per language`): the
+descriptor states the first namespace of a language, the one the IDL means and the Go backend uses -/
+theorem describe_keeps_first_namespace :
+    (forget wNamespace).namespaces [103, 111] = some [97] ∧ (factsOf (describe wNamespace)).namespaces [103, 111] = some [97] := by
   decide
 
 /-- **annotations with all values**: whatever `(k = "v", …)` list the source holds (keys may repeat), the parser's
@@ -250,16 +251,17 @@ theorem field_lookup_finds (p : Str) (s : StructLike) (n : Str) (i : Int) :
     ∀ (sv : Service), (descService p sv).methodByName n = (sv.functions.find? (fun f => f.name = n)).map (descMethod p) :=
   ⟨field_by_name p s n, field_by_id p s i, fun sv => method_by_name p sv n⟩
 
-/-- **negative witness 4** (RegisterAST mode): `registerGlobalUUID` never stamps the type descriptor of a constant,
-so `c.Type.GetStructDescriptor()` (and the other four) consult the *default* registry instead of the registry the
-constant lives in — whatever that registry holds. -/
-theorem const_type_unregistered {α : Type} (W : World) (uuid p : Str) (c : Const) (look : FileDesc → Str → Option α) :
+/-- **regression item** (was negative witness 4 before the fix `stamp c.Type`): the type descriptor of a constant
+carries the uuid of the registry the constant lives in, so `c.Type.GetStructDescriptor()` (and the other getters)
+resolve there — to what the type name denotes, by `typedesc_and_method_lookup_finds`. -/
+theorem const_type_registered {α : Type} (W : World) (uuid p : Str) (huuid : uuid ≠ []) (c : Const)
+    (look : FileDesc → Str → Option α) :
     (uuidConst uuid (descConst p c)).ty.getVia W look =
       (if isContainer c.ty.1 || isBasic c.ty.1 then none
-       else lookupIn W (some W.dflt) p c.ty.1 look) := by
+       else lookupIn W (mapGet W.regs uuid) p c.ty.1 look) := by
+  rw [const_type_stamped]
   cases hc : c.ty with
-  | mk n k v =>
-    simp [TypeDesc.getVia, uuidConst, descConst, hc, descTy, TypeDesc.name, TypeDesc.extra, TypeDesc.filepath, globalOf_none]
+  | mk n k v => exact typedesc_stamped W uuid huuid p n k v look
 
 /-! ### gotype_bijection -/
 
